@@ -325,6 +325,14 @@ func (s *Stream) WriteSCTP(payload []byte, ppi PayloadProtocolIdentifier) (int, 
 		return 0, ErrStreamClosed
 	}
 
+	if len(payload) == 0 {
+		// A DATA chunk cannot carry an empty user message (RFC 9260 Sec 3.3.1).
+		// Packetizing it would yield no chunk but still consume a stream sequence
+		// number (and, in blocking mode, the write slot), so that every later
+		// message on the stream waits behind a number that is never sent.
+		return 0, nil
+	}
+
 	// the send could fail if the association is blocked for writing (timeout), it will left a hole
 	// in the stream sequence number space, so we need to lock the write to avoid concurrent send and decrement
 	// the sequence number in case of failure
